@@ -223,6 +223,7 @@ def handle (st : DState) (line : String) : DState × String :=
       match groups.mapM (fun g => g.mapM parseNat?) with
       | some ls => (st, " ; ".intercalate ((parseStream 1 (ls.map (·.map Char.ofNat))).map StreamOut.show))
       | none => (st, "bad-op")
+    | "conc" => (st, runConc args)
     | "preset" => ({ st with p := {} }, "ok")
     | "pfeed" => match parseInts args with
       | some bs => let (p, o) := pstep st.p (.feed bs); ({ st with p := p }, o.show)
